@@ -274,7 +274,9 @@ fn main() {
 			}
 			// (5, 6: the record was confirmed at another height — e.g. on a branch since abandoned —
 			// and is wrongly Spent / Locked)
-			let kind = r.p.below(7);
+			// (7: still Unspent, but recorded at another height than the chain has it — confirmed on a branch
+			// since abandoned and mined again while the wallet was not looking)
+			let kind = r.p.below(8);
 			let (a, ch) = key_pair(&o.key_id);
 			r.s.with(0, |b, m| {
 				let mut batch = b.batch(m).unwrap();
@@ -287,6 +289,8 @@ fn main() {
 						if x.is_coinbase { x.lock_height = x.height + 3; } batch.save(x).unwrap(); }
 					6 => { let mut x = o.clone(); x.status = OutputStatus::Locked; x.height = x.height.saturating_sub(1).max(1);
 						if x.is_coinbase { x.lock_height = x.height + 3; } batch.save(x).unwrap(); }
+					7 => { let mut x = o.clone(); x.status = OutputStatus::Unspent; x.height = x.height.saturating_sub(1).max(1);
+						batch.save(x).unwrap(); }
 					_ => { let mut x = o.clone(); x.status = OutputStatus::Unspent; batch.save(x).unwrap(); }
 				}
 				batch.commit().unwrap();
